@@ -44,6 +44,11 @@ fn weight(it: &Item) -> u64 {
 }
 
 fn main() {
+    // worker threads of the library are spawned with the default stack size: 64 KiB items (tok::Big) moved by value
+    // through unoptimised harness frames need more than the default 2 MiB (read once by std, before the first spawn)
+    if std::env::var_os("RUST_MIN_STACK").is_none() {
+        std::env::set_var("RUST_MIN_STACK", "67108864");
+    }
     hcore::glue::install();
     sched::set_fatal_handler(runner::fatal_handler);
     std::panic::set_hook(Box::new(|info| {
